@@ -425,7 +425,11 @@ func execPass(input string) Result {
 	start := kv["start"]
 	u := &models.URL{Raw: start, Hops: hops}
 	must(u.Parse())
-	seed := models.NewItem(uuid.New().String(), u, "")
+	via := ""
+	if kv["via"] == "1" { // a seed born from an outlink (or handed out by HQ / the queue with its via)
+		via = "http://via.example/page.html"
+	}
+	seed := models.NewItem(uuid.New().String(), u, via)
 	seed.SetSource(models.ItemSourceQueue)
 	if passTimeouts >= 3 {
 		// earlier seeds never came out of the pipeline: it is wedged (their tokens are held), do not wait again
@@ -543,7 +547,11 @@ func genPass(r *Rng, i int, tier string) string {
 	if host == "a.example" && r.Chance(25) {
 		inc = 1 // an include filter: references to the other host are refused by the include branch of preprocess
 	}
-	return fmt.Sprintf("seed=%d mr=%d da=%d hops=%d inc=%d start=http://%s/s%d-%d.html", r.U64()%1000000, r.Intn(4), da, r.Intn(3), inc, host, r.U64()%100000, i)
+	s := fmt.Sprintf("seed=%d mr=%d da=%d hops=%d inc=%d start=http://%s/s%d-%d.html", r.U64()%1000000, r.Intn(4), da, r.Intn(3), inc, host, r.U64()%100000, i)
+	if r.Chance(35) {
+		s += " via=1"
+	}
+	return s
 }
 
 func init() {
